@@ -161,6 +161,36 @@ pub fn check_list(ctx: &mut Ctx, list: &[REntry], codec: u8, with_async: bool, r
             Ok(Err(e)) => ctx.violation("Directory::from_async_reader", "foreign-rejected", "independent encoder's output refused", &e.to_string(), mat(list, codec)),
             Err(p) => ctx.panic("Directory::from_async_reader", &p, mat(list, codec)),
         }
+        // two directories stored back to back in ONE stream, parsed one after the other without seeking in between (sync and
+        // async): the first parse must leave the stream where the second directory starts
+        {
+            let mut both = foreign.clone();
+            both.extend_from_slice(&foreign);
+            both.extend_from_slice(&[0xAB; 9000]);
+            let mut s2 = crate::io::Inst::new(both.clone());
+            let r = guard(|| -> std::io::Result<(Directory, Directory)> { Ok((Directory::from_reader(&mut s2, flen, comp)?, Directory::from_reader(&mut s2, flen, comp)?)) });
+            match r {
+                Ok(Ok((a, b))) if gen::from_lib_entries(&a) == list && gen::from_lib_entries(&b) == list => ctx.count("back_to_back_parses_ok"),
+                Ok(Ok(_)) => ctx.violation("Directory::from_reader", "foreign-decode", "two directories stored back to back are not both decoded to their entries", "second parse differs", mat(list, codec)),
+                Ok(Err(e)) => ctx.violation("Directory::from_reader", "foreign-rejected", "two directories stored back to back: a parse fails", &e.to_string(), mat(list, codec)),
+                Err(p) => ctx.panic("Directory::from_reader", &p, mat(list, codec)),
+            }
+            let mut a2 = AInst::new(both);
+            a2.pend = Pend::Alternate;
+            let r = guard(|| {
+                block_on(async {
+                    let a = Directory::from_async_reader(&mut a2, flen, comp).await?;
+                    let b = Directory::from_async_reader(&mut a2, flen, comp).await?;
+                    Ok::<_, std::io::Error>((a, b))
+                })
+            });
+            match r {
+                Ok(Ok((a, b))) if gen::from_lib_entries(&a) == list && gen::from_lib_entries(&b) == list => ctx.count("back_to_back_parses_ok"),
+                Ok(Ok(_)) => ctx.violation("Directory::from_async_reader", "foreign-decode", "two directories stored back to back are not both decoded to their entries (async)", "second parse differs", mat(list, codec)),
+                Ok(Err(e)) => ctx.violation("Directory::from_async_reader", "foreign-rejected", "two directories stored back to back: a parse fails (async)", &e.to_string(), mat(list, codec)),
+                Err(p) => ctx.panic("Directory::from_async_reader", &p, mat(list, codec)),
+            }
+        }
         // the sync stream parser over a reader that returns fewer bytes than asked for
         let mut sr = crate::io::Inst::new(foreign.clone());
         sr.c.rsched = Sched::Random(Rng::new(rng.next()), 64);
